@@ -490,6 +490,12 @@ def run(run_, tier):
     # second evaluation at the same state (e.g. by accumulating in place into a cached array shared with copies) breaks reversal and writes the input state
     from . import symla_systems
     symla_systems.run_cases(run_, "c05_cases", keep=lambda oid: any(k in oid for k in ("stable-under-repeated-evaluation", "grad-cache-not-corrupted")))
+    # the explicit schemes reverse because each component flow is a one-parameter GROUP in time (flow(-t) o flow(t) = id, flow(s) o flow(t) = flow(s+t)):
+    # C07's obligations on the real h1_flow / h2_flow of every system and metric type, imported (a flow that is merely energy-like but not a group --
+    # e.g. a rotation with mismatched amplitude factors -- composes to a non-reversible step that no run-time check guards)
+    symla_systems.run_cases(run_, "c07_cases", keep=lambda oid: any(k in oid for k in ("h2_flow-group-law", "h2_flow-inverse", "h1_flow-kicks", "h1_flow-leaves", "h2_flow-leaves-momentum", "h2_flow-drifts")))
+    from . import generic_systems
+    generic_systems.run_generic_systems(run_, keep=lambda oid: any(k in oid for k in ("h2_flow-group-law", "h2_flow-inverse")))
     # ... and as functions of the state *for the system that is stepping*: the state cache is transparent and keyed per (system object, method)
     from . import premises
     premises.cache_protocol(run_)
